@@ -281,7 +281,10 @@ func c15() {
 	})
 	// a missing policy file stays missing although permissive files of the same name exist in other plausible places
 	// (next to the executable, in the home directory, in the parent and in a sub-directory of the working directory)
-	for vi, variant := range []string{"relative-name", "default-name", "relative-with-dir", "dot-slash"} {
+	// ... and although a permissive file lies where the name would lead if ".." were removed from it as text: behind a
+	// symbolic link to a directory, ".." is the parent of the link's target (in the name itself, or in a working directory
+	// that was entered through the link and is remembered that way in $PWD)
+	for vi, variant := range []string{"relative-name", "default-name", "relative-with-dir", "dot-slash", "dotdot-behind-a-symlinked-directory", "dotdot-from-a-working-directory-entered-through-a-symlink"} {
 		dir := filepath.Join(root, fmt.Sprintf("decoy%d", vi))
 		binDir, work, home := filepath.Join(dir, "bin"), filepath.Join(dir, "parent", "work"), filepath.Join(dir, "home")
 		for _, d := range []string{binDir, work, home, filepath.Join(work, "sub"), filepath.Join(work, "conf")} {
@@ -309,10 +312,26 @@ func c15() {
 		default:
 			args = []string{"-policy", "./strict.yml", target, "probe", cp}
 		}
+		cwd, pwd := work, ""
+		if strings.HasPrefix(variant, "dotdot-") {
+			deep := filepath.Join(dir, "elsewhere", "deep")
+			os.MkdirAll(deep, 0o755)
+			os.Symlink(deep, filepath.Join(work, "link"))
+			os.WriteFile(filepath.Join(work, "strict.yml"), []byte(permissive), 0o644) // where the cleaned-up text leads; the name leads to elsewhere/strict.yml, which does not exist
+			if variant == "dotdot-behind-a-symlinked-directory" {
+				args = []string{"-policy", "link/../strict.yml", target, "probe", cp}
+			} else {
+				args = []string{"-policy", "../strict.yml", target, "probe", cp}
+				cwd, pwd = filepath.Join(work, "link"), filepath.Join(work, "link")
+			}
+		}
 		os.Remove(marker)
 		cmd := exec.Command(sb, args...)
-		cmd.Dir = work
+		cmd.Dir = cwd
 		cmd.Env = append(os.Environ(), "VERIF_MARKER="+marker, "HOME="+home)
+		if pwd != "" {
+			cmd.Env = append(cmd.Env, "PWD="+pwd)
+		}
 		out, err := cmd.CombinedOutput()
 		_, merr := os.Stat(marker)
 		run.Count("fault_runs", 1)
